@@ -457,7 +457,7 @@ def run(chk):
             else:
                 violation(chk, stats, None, {'kind': 'monitor', 'what': 'a %s encoding with one token deleted is accepted as a different value and is not a printer output' % k, 'case': c, 'impl': o, 'orig': oo, 'reencoded': ro})
     # INFOMGR string journey
-    un_cases = ['task_unstr ' + s for _, s in strs]
+    un_cases = ['coord_infomgr ' + s for _, s in strs]       # the real MigrationStateRespChecker::check
     impl, model = R.both(un_cases)
     cl = R.model(['cls_task ' + f_task(v) for v, _ in strs])
     for (v, s), c, o, cls in zip(strs, un_cases, impl, cl):
@@ -481,7 +481,11 @@ def run(chk):
     vals.append({'epoch': 0, 'flags': 0, 'name': b'', 'local': [], 'peer': [], 'cfg': (0, 10800, 10000, 500, 16)})
     vals.append({'epoch': U64, 'flags': 1, 'name': b'PEER', 'local': [], 'peer': [(b'10.0.0.1:70', [('N', [(0, 16383)], None)])], 'cfg': (2, U64, 0, U64, 1)})
     vals.append({'epoch': 7, 'flags': 0, 'name': b'c', 'local': [(b'10.0.0.1:70', [])], 'peer': [(b'10.0.0.2:70', [])], 'cfg': (1, 1, 2, 3, 4)})
-    vals.append({'epoch': 7, 'flags': 0, 'name': b'c', 'local': [(b'10.0.0.1:70', [('N', [(0, 5)], None)])], 'peer': [], 'cfg': (1, 1, 2, 3, 0)})
+    # values violating a wf hypothesis of the round-trip theorems: what the real code does with them is recorded (sub-check pcm_not_wf)
+    vals.append({'epoch': 7, 'flags': 0, 'name': b'c', 'local': [(b'10.0.0.1:70', [('N', [(0, 5)], None)])], 'peer': [], 'cfg': (1, 1, 2, 3, 0)})       # scan_count = 0
+    vals.append({'epoch': 7, 'flags': 0, 'name': b'c', 'local': [(b'peer', [('N', [(0, 5)], None)])], 'peer': [], 'cfg': (1, 1, 2, 3, 4)})              # node address is a section keyword
+    vals.append({'epoch': 7, 'flags': 0, 'name': b'c', 'local': [(b'10.0.0.1:70', [('N', [(0, 5)], None)])], 'peer': [(b'Config', [('N', [(9, 9)], None)])], 'cfg': (1, 1, 2, 3, 4)})
+    vals.append({'epoch': 7, 'flags': 2, 'name': b'c', 'local': [(b'10.0.0.1:70', [('N', [(0, 5)], None)])], 'peer': [], 'cfg': (1, 1, 2, 3, 4)})        # COMPRESS flag on the plain form
     enc = ['pcm_enc - ' + f_pcm(m) for m in vals]
     impl_enc = R.impl(enc)
     ordered, msgs = [], []
@@ -505,23 +509,7 @@ def run(chk):
     impl_dec, _ = R.both(dec)
     for (m2, ordd, toks), c, o, cl in zip(ordered, dec, impl_dec, cls):
         chk.count(c, True)
-        f = kv(cl)
-        norm = cl.split(' norm=', 1)[1].rsplit(' len=', 1)[0] if ' norm=' in cl else '?'
-        want_exact = 'ok ' + f_pcm(m2, canon=True) + ' ext=1'
-        stats['pcm_roundtrip'] = stats.get('pcm_roundtrip', 0) + 1
-        if f.get('wf') != '1':
-            stats['pcm_not_wf'] = stats.get('pcm_not_wf', 0) + 1
-            chk.sub('pcm_not_wf', example={'case': c, 'value': f_pcm(m2), 'impl': o})
-            continue
-        if o == want_exact: continue
-        compact_v = all(is_compact_py(s[1]) for nm in (m2['local'], m2['peer']) for _, srs in nm for s in srs)
-        if f.get('empty') == '1' and o == 'ok ' + norm + ' ext=1':
-            violation(chk, stats, 'plain-encoding-drops-empty-node', {'kind': 'monitor', 'what': 'the plain encoding drops nodes that have no slot range', 'case': 'pcm_enc - ' + f_pcm(m2), 'impl': o, 'value': want_exact})
-        elif not compact_v and o == 'ok ' + norm + ' ext=1':
-            stats['pcm_roundtrip_noncompact'] = stats.get('pcm_roundtrip_noncompact', 0) + 1
-        else:
-            violation(chk, stats, None, {'kind': 'monitor', 'what': 'plain round trip on the real code returns a different value', 'case': 'pcm_enc - ' + f_pcm(m2), 'impl': o, 'value': want_exact, 'model_normal_form': norm})
-        if f.get('wf') == '1': msgs.append((len(msgs), toks, (m2, ordd)))
+        judge_plain(chk, stats, m2, o, cl, 'pcm_enc - ' + f_pcm(m2))
     msgs = [(i, toks, (m2, ordd)) for i, (m2, ordd, toks) in enumerate(ordered)]
 
     def pcm_classes(pending, stats):
@@ -622,6 +610,38 @@ def run(chk):
     rstats['messages_swept'] = len(rmsgs if not quick else rmsgs[:30])
     sweep(chk, R, rmsgs if not quick else rmsgs[:30], 'repl_dec', repl_classes, rstats)
 
+    # ---------- 5. the coordinator's own path: ProxyMetaRespSender::send_meta -> SETREPL + SETCLUSTER -> the proxy's parsers ----------
+    n_c = 40 if quick else 800
+    cps = []
+    for i in range(n_c):
+        m = g.pcm(compact=(g.r.random() < 0.9), allow_empty=(g.r.random() < 0.3))
+        nodes = [(a, g.r.choice('mmr'), srs, [(g.free(), g.free()) for _ in range(g.r.choice([0, 1, 1, 2]))]) for a, srs in m['local']]
+        cps.append({'name': (m['name'] if g.r.random() < 0.9 else None), 'epoch': m['epoch'], 'nodes': nodes, 'peer': m['peer'], 'cfg': m['cfg'], 'c': i % 2})
+    cc = ['coord_send %d %s' % (p['c'], f_cproxy(p)) for p in cps]
+    impl, _ = R.both(cc)
+    derived = []
+    for p in cps:
+        named = p['name'] is not None
+        derived.append(({'epoch': p['epoch'], 'flags': 2 * p['c'], 'name': p['name'] if named else b'',
+                         'local': [(a, srs) for a, role, srs, _ in p['nodes'] if role == 'm'] if named else [], 'peer': p['peer'], 'cfg': p['cfg']},
+                        {'epoch': p['epoch'], 'flags': 0,
+                         'masters': [(p['name'], a, ps) for a, role, _, ps in p['nodes'] if role == 'm'] if named else [(b'', a, []) for a, _, _, _ in p['nodes']],
+                         'replicas': [(p['name'], a, ps) for a, role, _, ps in p['nodes'] if role == 'r'] if named else []}))
+    cls = R.model(['cls_pcm 01234 ' + f_pcm(dict(d, flags=0)) for d, _ in derived])
+    for p, c, o, (dm, dr), cl in zip(cps, cc, impl, derived, cls):
+        chk.count(c, True)
+        stats['coord_send'] = stats.get('coord_send', 0) + 1
+        parts = o.split(' | cluster ')
+        if len(parts) != 2 or not parts[0].startswith('repl '):
+            violation(chk, stats, None, {'kind': 'monitor', 'what': 'coordinator send_meta did not produce the two messages', 'case': c, 'impl': o}); continue
+        if parts[0][5:] != 'ok ' + f_repl(dr):
+            violation(chk, stats, None, {'kind': 'monitor', 'what': 'the SETREPL message the coordinator sends does not decode to the proxy\'s replication metadata', 'case': c, 'impl': o, 'expected': f_repl(dr)})
+        if p['c'] == 1:
+            if parts[1] != 'ok ' + f_pcm(dm, canon=True) + ' ext=1':
+                violation(chk, stats, None, {'kind': 'monitor', 'what': 'the compressed SETCLUSTER message the coordinator sends does not decode to the proxy\'s metadata', 'case': c, 'impl': o, 'expected': f_pcm(dm, canon=True)})
+        else:
+            judge_plain(chk, stats, dm, parts[1], cl, c, what='the plain SETCLUSTER message the coordinator sends')
+
     # ---------- bookkeeping ----------
     chk.cov['traces_validated_against_impl'] = R.validated
     chk.sub('distribution', case_kinds=R.hist, leaf_and_roundtrips=stats, setcluster_mutations=pstats, setrepl_mutations=rstats,
@@ -634,6 +654,33 @@ def run(chk):
                        'first': R.disagreements[0], 'count': len(R.disagreements),
                        'search': 'all monitors (round trips, prefix rejection, mutation classes) evaluated on every implementation output incl. the disagreeing ones: no property failure'},
                       no_input=True)
+
+
+def judge_plain(chk, stats, m, o, cl, case, what='plain round trip on the real code'):
+    """o: what the implementation decoded from its own plain encoding of m; cl: the model's cls_pcm line for m"""
+    f = kv(cl)
+    norm = cl.split(' norm=', 1)[1].rsplit(' len=', 1)[0] if ' norm=' in cl else '?'
+    want_exact = 'ok ' + f_pcm(m, canon=True) + ' ext=1'
+    stats['pcm_roundtrip'] = stats.get('pcm_roundtrip', 0) + 1
+    if f.get('wf') != '1':
+        stats['pcm_not_wf'] = stats.get('pcm_not_wf', 0) + 1
+        ex = chk.cov['subchecks'].setdefault('pcm_not_wf', {}).setdefault('examples', [])
+        if len(ex) < 8: ex.append({'value': f_pcm(m), 'impl_decode_of_own_encoding': o})
+        return
+    if o == want_exact: return
+    compact_v = all(is_compact_py(s[1]) for nm in (m['local'], m['peer']) for _, srs in nm for s in srs)
+    if f.get('empty') == '1' and o == 'ok ' + norm + ' ext=1':
+        violation(chk, stats, 'plain-encoding-drops-empty-node', {'kind': 'monitor', 'what': 'the plain encoding drops nodes that have no slot range', 'case': case, 'impl': o, 'value': want_exact})
+    elif not compact_v and o == 'ok ' + norm + ' ext=1':
+        stats['pcm_roundtrip_noncompact'] = stats.get('pcm_roundtrip_noncompact', 0) + 1
+    else:
+        violation(chk, stats, None, {'kind': 'monitor', 'what': what + ' returns a different value', 'case': case, 'impl': o, 'value': want_exact, 'model_normal_form': norm})
+
+
+def f_cproxy(p):
+    nodes = ' '.join('%s %s %d %s %d %s' % (hx(a), role, len(srs), ' '.join(f_sr(x) for x in srs), len(ps), ' '.join(hx(x) + ' ' + hx(y) for x, y in ps))
+                     for a, role, srs, ps in p['nodes'])
+    return ' '.join([hx(p['name']) if p['name'] is not None else '~', str(p['epoch']), str(len(p['nodes'])), ' '.join(nodes.split()), f_nm(p['peer']), f_cfg(p['cfg'])])
 
 
 def is_compact_py(rl):
